@@ -173,18 +173,24 @@ def summary_atoms(P, pairs_by_pair):
     return f, leaf, dflt, common, flags
 
 
-def _member_fields(f, root):
-    """names of data members of the enclosing class mentioned below root"""
+def _member_fields(f, root, P=None):
+    """names of data members of the enclosing class mentioned below root; with P, zero-argument
+    member getters are looked through (the fields their body mentions count too)"""
     out = set()
     for n in walk(root):
         if n["k"] == "MemberExpr":
             d = f.decl(n)
             if d is not None and d["k"] == "Field":
                 out.add(d["n"])
+        if P is not None and n["k"] == "CXXMemberCallExpr" and not call_args(n):
+            d = f.decl(n)
+            g = P.funcs.get((d or {}).get("u"))
+            if g is not None and g.cls == f.cls:
+                out |= _member_fields(g, g.body)
     return out
 
 
-def _out_param_sources(g):
+def _out_param_sources(g, P=None):
     """{param name: containers} for `param = field.size()` and `++param` inside a loop over a container"""
     out = {}
     for n in g.nodes():
@@ -198,7 +204,7 @@ def _out_param_sources(g):
                 for anc in g.ancestors(n):
                     if anc["k"] == "ForStmt":
                         out.setdefault(g.decl(l)["n"], set()).update(
-                            _member_fields(g, anc["c"][0]) | _member_fields(g, anc["c"][1]))
+                            _member_fields(g, anc["c"][0], P) | _member_fields(g, anc["c"][1], P))
                         break
     return out
 
@@ -226,7 +232,7 @@ def feed_table(ctx, P):
             helper = P.funcs.get(d.get("u")) if d is not None else None
             if helper is not None and not fields:
                 # member helper with out-parameters: map each parameter to the containers it is set from
-                pmap = _out_param_sources(helper)
+                pmap = _out_param_sources(helper, P)
                 for i, a in enumerate(args):
                     a0 = strip_casts(a)
                     if a0 is not None and a0["k"] == "DeclRefExpr" and (f.decl(a0) or {}).get("k") == "Var" \
